@@ -339,6 +339,9 @@ namespace GeographicLib {
       if (northp && iy < minutmNrow_) {
         northp = false;
         y += utmNshift_;
+        // A tiny negative northing rounds up to the equator; retain S
+        // hemisphere (as for y == maxutmSrow_ * tile_ below)
+        if (y == maxutmSrow_ * tile_) y -= eps;
       } else if (!northp && iy >= maxutmSrow_) {
         if (y == maxutmSrow_ * tile_)
           // If on equator retain S hemisphere
